@@ -36,8 +36,8 @@ def defaultContig : List Char :=
 
 /-- the two settings of `parse()` and the one of `tokenize_value_literal` -/
 def structSettings : Settings :=
-  { single := ['{', '}', '='], commentChars := ['#'], metaComment := some "phil".toList }
-def valueSettings : Settings := { single := ['{', '}', ';'] }
+  { single := Gen.structSingle, commentChars := Gen.structComment, metaComment := some Gen.structMeta.toList }
+def valueSettings : Settings := { single := Gen.valueSingle }
 def literalSettings : Settings := {}
 def defaultSettings : Settings := { contig := defaultContig }
 
